@@ -624,6 +624,7 @@ SOUP = [("IDENT", "a"), ("IDENT", "p"), ("IDENT", "not"), ("CHAR", ":"), ("CHAR"
         ("universal", "*|*|*"), ("universal", "p|*"), ("class", ".k"), ("pseudo-class", ":x"), ("pseudo-element", "::y("),
         ("negation", ":not("), ("namespace_prefix", "q|"), ("STRING", "x"), ("CHAR", "{"), ("IDENT", "FIRST-LINE"),
         ("CHAR", ";"), ("UNICODE-RANGE", "U+1"), ("IDENT", "K"), ("FUNCTION", "n\\ot(")]
+SOUP += [("IDENT", "\\p"), ("IDENT", "\\q"), ("IDENT", "p\\-"), ("IDENT", "\\-p"), ("IDENT", "\\70 "), ("IDENT", "P")]   # prefixes with escapes
 SOUP += [("STRING", '"%s"' % m) for m in META] + [("IDENT", m) for m in META] + [("STRING", m + m) for m in META[:14]] + \
     [("HASH", "#" + m) for m in META[:6]] + [("DIMENSION", "1" + m) for m in META[:4]]
 SMALL = [("IDENT", "a"), ("CHAR", ":"), ("CHAR", "."), ("CHAR", "*"), ("CHAR", "|"), ("CHAR", "["), ("CHAR", "]"),
